@@ -10,8 +10,9 @@ CLAIMED = {
         "hash for every bit pattern of the data members, including signed zeros and NaNs, same-object and cached-hash cases. "
         "Composite classes Pow, Interval, TwoArgBasic<> (all relationals and two-argument functions), OneArgFunction, Complement, Contains (and unified_eq on RCP operands) are "
         "proved as callers against the CALLEE CONTRACT of their children (abstract children with eq <=> equal rank, equal rank => equal hash; any sharing): eq implies equal hash, hash cache "
-        "consistent. Add::__hash__/__eq__ over a two-term dictionary is a bounded stand-in (hash_t narrowed to 16 bits; not counted as proved). Mul, multi-argument functions, other sets, "
-        "booleans, polynomials and matrices are not under contract.",
+        "consistent. Add::__hash__/__eq__ over a two-term dictionary is a bounded stand-in (hash_t narrowed to 16 bits; not counted as proved). MSymEnginePoly::__eq__ / MIntPoly::__hash__ "
+        "and is_constant are a bounded stand-in (<= 2 terms in <= 2 of 4 variables), including equal constants over different variable sets. Mul, multi-argument functions, other sets, "
+        "booleans, other polynomial classes and matrices are not under contract.",
    note="Trusted: stub GMP integer/rational (==, <, mp_get_*), std::complex ==, hand-written dispatch for virtual calls, extraction rules; CBMC tool chain.",
    tech="contract-based deductive verification with CBMC on mechanically extracted function text (route F: loop-free, full domain)"),
  "C02": dict(cat="proof", design="§4 C02",
